@@ -14,6 +14,9 @@ for f in sorted(glob.glob(os.path.join(ROOT, "props", "C*.json"))):
         print("skipping incomplete", f); continue
     claimed[c["id"]] = c
 na = json.load(open(os.path.join(ROOT, "na.json")))
+# the lead lists here the properties whose checks have been reviewed and pass on the unchanged tree
+ready = set(open(os.path.join(ROOT, "claimed.txt")).read().split())
+claimed = {k: v for k, v in claimed.items() if k in ready}
 checks = []
 for i in ids:
     if i not in claimed:
